@@ -518,6 +518,49 @@ impl<'tcx> Cx<'tcx> {
         None
     }
 
+    fn read_uint(&self, alloc_id: mir::interpret::AllocId, off: u64, width: u64) -> Option<u128> {
+        let b = self.alloc_bytes(alloc_id, off, Some(width))?;
+        let mut v: u128 = 0;
+        for (i, x) in b.iter().enumerate() {
+            v |= (*x as u128) << (8 * i);
+        }
+        Some(v)
+    }
+
+    /// A tuple of unsigned integers -> {"k":"inttuple","v":[..]};  `Option<uN>` -> {"k":"optint","v":n} / {"k":"optint"} (None).
+    fn int_aggregate_j(&self, t: Ty<'tcx>, alloc_id: mir::interpret::AllocId, off: u64) -> Option<J> {
+        let layout = self.tcx.layout_of(TypingEnv::fully_monomorphized().as_query_input(t)).ok()?;
+        match t.kind() {
+            ty::Tuple(fields) if !fields.is_empty() && fields.iter().all(|f| matches!(f.kind(), ty::Uint(_))) => {
+                let mut out = Vec::new();
+                for (i, f) in fields.iter().enumerate() {
+                    let fl = self.tcx.layout_of(TypingEnv::fully_monomorphized().as_query_input(f)).ok()?;
+                    let v = self.read_uint(alloc_id, off + layout.fields.offset(i).bytes(), fl.size.bytes())?;
+                    out.push(J::Int(v as i128));
+                }
+                Some(J::obj(vec![("k", J::s("inttuple")), ("v", J::Arr(out))]))
+            }
+            ty::Adt(def, args) if self.tcx.def_path_str(def.did()) == "std::option::Option" && matches!(args.type_at(0).kind(), ty::Uint(_)) => {
+                let pl = self.tcx.layout_of(TypingEnv::fully_monomorphized().as_query_input(args.type_at(0))).ok()?;
+                // no niche in an unsigned integer: a direct tag in front, the payload behind it, both `align` wide apart
+                if layout.size.bytes() != 2 * pl.size.bytes().max(layout.align.abi.bytes()) && layout.size.bytes() != pl.size.bytes() + layout.align.abi.bytes() {
+                    return None;
+                }
+                let tag_w = layout.size.bytes() - layout.align.abi.bytes().max(pl.size.bytes());
+                let tag = self.read_uint(alloc_id, off, tag_w.min(16))?;
+                if tag == 0 {
+                    return Some(J::obj(vec![("k", J::s("optint"))]));
+                }
+                if tag != 1 {
+                    return None;
+                }
+                let v = self.read_uint(alloc_id, off + layout.size.bytes() - pl.size.bytes(), pl.size.bytes())?;
+                Some(J::obj(vec![("k", J::s("optint")), ("v", J::Int(v as i128))]))
+            }
+            _ => None,
+        }
+    }
+
     /// Bytes behind a `&[u8]` / `&str` fat pointer stored at `off` in allocation `alloc_id`.
     fn follow_fat(&self, alloc_id: mir::interpret::AllocId, off: u64) -> Option<Vec<u8>> {
         if let Some(GlobalAlloc::Memory(m)) = self.tcx.try_get_global_alloc(alloc_id) {
@@ -571,6 +614,12 @@ impl<'tcx> Cx<'tcx> {
                 // `&Option<&u8>` (promoted `&Some(&b'/')`, the right-hand side of `bytes.first() == Some(&b'/')`)
                 if let ty::Ref(_, inner, _) = ty.kind() {
                     if let Some(j) = self.opt_ref_int_j(*inner, alloc_id, off.bytes()) {
+                        return j;
+                    }
+                }
+                // `&(usize, usize)` / `&Option<usize>` (promoted right-hand sides of `(a, b) == (0, N)`, `x.checked_sub(y) == Some(N)`)
+                if let ty::Ref(_, inner, _) = ty.kind() {
+                    if let Some(j) = self.int_aggregate_j(*inner, alloc_id, off.bytes()) {
                         return j;
                     }
                 }
